@@ -1,5 +1,6 @@
 import DimodProofs.LpRound
 import DimodProofs.LpVars
+import DimodProofs.LpLex
 
 /-! # C12 — LP text round trip preserves the constrained model or is refused
 
@@ -11,9 +12,9 @@ from the Binary / General sections).  Tied to the code on every run by `harness/
 model's text equals `lp.dumps` byte for byte and the model's reading of that text equals `lp.loads`.
 
 Scope of the theorems: the round trip is proved on the writer's *token stream* (`readToks ∘ dumpToks`).
-The lexical layer — rendering tokens to text, number formatting, splitting text into tokens again, and
-the C++ parser `extern/filereaderlp` itself — is covered by the correspondence run only (stated in the
-level note).  Interpretation (DESIGN §1): the LP grammar has no constant on a constraint's left side,
+Of the lexical layer, `wrap_invisible_to_reader` proves that line breaking does not change the words the
+reader sees; number formatting, the word-to-token step (`lex`) and the C++ parser `extern/filereaderlp`
+itself are covered by the correspondence run only (stated in the level note).  Interpretation (DESIGN §1): the LP grammar has no constant on a constraint's left side,
 the writer emits `lhs − c  sense  rhs − c`; hence `activity = lhs(x) − rhs` is what is preserved, and
 `rhs`, `lhs` individually when `c = 0`. -/
 
@@ -33,6 +34,15 @@ theorem wrap_break_rule (ll : Nat) (s : String) :
     (writeStep ll s).1 = decide (ll + firstNl s.toList > Generated.LpLabels.targetLineLen - 1) := by
   simp only [writeStep]
   split <;> rfl
+
+/-- **wrap is invisible to the reader** (lexical layer, first half): in everything `dump` writes, two
+    consecutive writes are separated by a blank or a newline, hence the `"\n "` that `_WidthLimitedFile`
+    inserts never joins or splits a word: the dumped text and the plain concatenation of the writes have the
+    same blank-separated words (`Lp.words`, the tokeniser the specification reader uses) -/
+theorem wrap_invisible_to_reader (m : LCqm) (ts : List Tok) (h : dumpToks m = .ok ts) :
+    List.IsChain TokSep ts ∧
+    words (joinWrites (wrapWrites 0 (ts.map Tok.render))) = words (String.join (ts.map Tok.render)) :=
+  ⟨dumpToks_separated m ts h, words_wrap_invariant m ts h⟩
 
 /-- **lp_roundtrip** (token level): whatever model the writer accepts, the reader accepts the writer's
     token stream and returns the normal form `normCqm` of the model -/
